@@ -3,6 +3,7 @@
   strand / frame components and a remainder.
 -/
 import BioCantor.Proofs.DigInject
+import BioCantor.Proofs.DigOrder
 set_option linter.unusedSimpArgs false
 namespace BioCantor.Proofs.Dig
 open BioCantor BioCantor.Spec.Digest BioCantor.Model.Digest
@@ -97,6 +98,76 @@ theorem var_stream_inj_stop {v : VarArgs} {e e' : Int}
   rw [var_stream, var_stream] at h
   have h1 := List.append_cancel_left h
   exact intStr_inj (List.append_cancel_right h1)
+
+/-! ### the GUID of a leaf class does not depend on the insertion order of its qualifiers -/
+
+theorem tx_guid_quals (t : TxArgs) {q q' : Quals} (h : memberTokens (qualsVal q) = memberTokens (qualsVal q')) :
+    txGuid md5 { t with quals := q } = txGuid md5 { t with quals := q' } := by
+  simp only [txGuid, guidOf, txDigestArgs, encodeObjectForDigest, List.flatMap_cons, h, TxArgs.cdsArgs]
+
+theorem cds_guid_quals (c : CdsArgs) {q q' : Quals} (h : memberTokens (qualsVal q) = memberTokens (qualsVal q')) :
+    cdsGuid md5 { c with quals := q } = cdsGuid md5 { c with quals := q' } := by
+  simp only [cdsGuid, guidOf, cdsDigestArgs, encodeObjectForDigest, List.flatMap_cons, h]
+
+theorem feat_guid_quals (f : FeatArgs) {q q' : Quals} (h : memberTokens (qualsVal q) = memberTokens (qualsVal q')) :
+    featGuid md5 { f with quals := q } = featGuid md5 { f with quals := q' } := by
+  simp only [featGuid, guidOf, featDigestArgs, encodeObjectForDigest, List.flatMap_cons, h]
+
+theorem var_guid_quals (v : VarArgs) {q q' : Quals} (h : memberTokens (qualsVal q) = memberTokens (qualsVal q')) :
+    varGuid md5 { v with quals := q } = varGuid md5 { v with quals := q' } := by
+  simp only [varGuid, guidOf, varDigestArgs, encodeObjectForDigest, List.flatMap_cons, h]
+
+/-- permuting the feature types handed to a FeatureInterval does not change its GUID (they are digested as a set) -/
+theorem feat_guid_types (f : FeatArgs) {a b : List Str} (h : a.Perm b) :
+    featGuid md5 { f with featureTypes := a } = featGuid md5 { f with featureTypes := b } := by
+  have : memberTokens (.set (a.map .str)) = memberTokens (.set (b.map .str)) := by
+    rw [memberTokens_set, memberTokens_set, orderSet_perm (h.map _)]
+  simp only [featGuid, guidOf, featDigestArgs, encodeObjectForDigest, List.flatMap_cons, this]
+
+/-- a collection's GUID does not depend on the order of its children (their GUIDs are digested as a set) -/
+theorem gene_guid_children (g : GeneArgs) (cs : Frame) {txs txs' : List TxArgs} (h : txs.Perm txs') :
+    (geneDigestArgs md5 { g with transcripts := txs } cs).map (guidOf md5) =
+      (geneDigestArgs md5 { g with transcripts := txs' } cs).map (guidOf md5) := by
+  have hs : spanOf (txs.map TxArgs.bounds) = spanOf (txs'.map TxArgs.bounds) := by
+    unfold spanOf
+    have h1 : ∀ {l l' : List Int}, l.Perm l' → minList l = minList l' ∧ maxList l = maxList l' := by
+      intro l l' hp
+      induction hp with
+      | nil => exact ⟨rfl, rfl⟩
+      | @cons x a b _ ih =>
+        have e1 : ∀ (y : Int) {u v : List Int}, u.Perm v → u.foldl min y = v.foldl min y := by
+          intro y u v huv
+          induction huv generalizing y with
+          | nil => rfl
+          | cons z _ ih => exact ih _
+          | swap z w r => simp only [List.foldl_cons]; congr 1; omega
+          | trans _ _ i1 i2 => exact (i1 y).trans (i2 y)
+        have e2 : ∀ (y : Int) {u v : List Int}, u.Perm v → u.foldl max y = v.foldl max y := by
+          intro y u v huv
+          induction huv generalizing y with
+          | nil => rfl
+          | cons z _ ih => exact ih _
+          | swap z w r => simp only [List.foldl_cons]; congr 1; omega
+          | trans _ _ i1 i2 => exact (i1 y).trans (i2 y)
+        rename_i hab
+        exact ⟨by simp only [minList, e1 x hab], by simp only [maxList, e2 x hab]⟩
+      | swap x y r =>
+        refine ⟨?_, ?_⟩
+        · simp only [minList, List.foldl_cons]; congr 2; omega
+        · simp only [maxList, List.foldl_cons]; congr 2; omega
+      | trans _ _ i1 i2 => exact ⟨i1.1.trans i2.1, i1.2.trans i2.2⟩
+    have p1 := ((h.map TxArgs.bounds).filterMap (·.1))
+    have p2 := ((h.map TxArgs.bounds).filterMap (·.2))
+    rw [(h1 p1).1, (h1 p2).2]
+  have hset : memberTokens (.set (txs.map fun t => .uuid (txGuid md5 t))) =
+      memberTokens (.set (txs'.map fun t => .uuid (txGuid md5 t))) := by
+    rw [memberTokens_set, memberTokens_set, orderSet_perm (h.map _)]
+  unfold geneDigestArgs
+  simp only [hs]
+  cases spanOf (txs'.map TxArgs.bounds) with
+  | none => rfl
+  | some sp =>
+    simp only [Option.map_some, guidOf, encodeObjectForDigest, List.flatMap_cons, hset]
 
 /-! ### collections: the stream starts with the rendered span -/
 
